@@ -43,6 +43,7 @@ func (r Root) String() string { return r.PkgPath + "." + r.Type + "." + r.Method
 type Result struct {
 	Signs           map[Root]bool     // root reaches a signing entry point
 	Via             map[Root][]string // one witness path (function names) for signing roots
+	Targets         map[Root][]string // names of ALL signing entry points reachable from the root (sorted)
 	Missing         []Root            // roots for which no SSA function was found (treated as signing = conservative)
 	RegisterCallers []string          // full names of functions that contain a direct call of (*rpc.Server).RegisterName
 	Algo            string
@@ -93,7 +94,7 @@ func Analyze(repoDir string, patterns []string, roots []Root, algo string) (*Res
 	}
 	tCG := time.Since(t0)
 
-	res := &Result{Signs: map[Root]bool{}, Via: map[Root][]string{}, Algo: algo}
+	res := &Result{Signs: map[Root]bool{}, Via: map[Root][]string{}, Targets: map[Root][]string{}, Algo: algo}
 
 	// targets
 	targets := map[*ssa.Function]bool{}
@@ -163,6 +164,27 @@ func Analyze(repoDir string, patterns []string, roots []Root, algo string) (*Res
 	}
 	sort.Strings(res.RegisterCallers)
 
+	// backward reachability from every entry point: which functions can reach it
+	canReach := map[*ssa.Function]map[*callgraph.Node]bool{}
+	for tf := range targets {
+		set := map[*callgraph.Node]bool{}
+		if tn := graph.Nodes[tf]; tn != nil {
+			set[tn] = true
+			q := []*callgraph.Node{tn}
+			for len(q) > 0 {
+				n := q[0]
+				q = q[1:]
+				for _, e := range n.In {
+					if !set[e.Caller] {
+						set[e.Caller] = true
+						q = append(q, e.Caller)
+					}
+				}
+			}
+		}
+		canReach[tf] = set
+	}
+
 	// reachability per root
 	for _, r := range roots {
 		p := prog.ImportedPackage(r.PkgPath)
@@ -204,6 +226,15 @@ func Analyze(repoDir string, patterns []string, roots []Root, algo string) (*Res
 			hit = start
 		}
 		res.Signs[r] = hit != nil
+		for tf, set := range canReach {
+			if set[start] {
+				res.Targets[r] = append(res.Targets[r], tf.Name())
+			}
+		}
+		sort.Strings(res.Targets[r])
+		if (len(res.Targets[r]) > 0) != (hit != nil) {
+			return nil, fmt.Errorf("cg: forward and backward reachability disagree on %v", r)
+		}
 		if hit != nil {
 			var path []string
 			for n := hit; n != nil; n = prev[n] {
@@ -245,6 +276,7 @@ func RuntimeName(fn *ssa.Function) string {
 type cacheFile struct {
 	Signs           map[string]bool
 	Via             map[string][]string
+	Targets         map[string][]string
 	RegisterCallers []string
 	Algo, Stats     string
 }
@@ -253,7 +285,7 @@ type cacheFile struct {
 // together with the question asked (patterns, roots, algorithm).
 func sourceHash(repoDir string, patterns []string, roots []Root, algo string) (string, error) {
 	h := sha256.New()
-	fmt.Fprintf(h, "cg-v3|%s|%v|%v\n", algo, patterns, roots)
+	fmt.Fprintf(h, "cg-v4|%s|%v|%v\n", algo, patterns, roots)
 	err := filepath.WalkDir(repoDir, func(p string, d fs.DirEntry, err error) error {
 		if err != nil {
 			return err
@@ -296,7 +328,7 @@ func AnalyzeCached(repoDir string, patterns []string, roots []Root, algo string)
 		if b, err := os.ReadFile(file); err == nil {
 			var c cacheFile
 			if json.Unmarshal(b, &c) == nil && len(c.Signs) == len(roots) {
-				res := &Result{Signs: map[Root]bool{}, Via: map[Root][]string{}, RegisterCallers: c.RegisterCallers, Algo: c.Algo, Stats: c.Stats + " (memoised on source hash " + key + ")"}
+				res := &Result{Signs: map[Root]bool{}, Via: map[Root][]string{}, Targets: map[Root][]string{}, RegisterCallers: c.RegisterCallers, Algo: c.Algo, Stats: c.Stats + " (memoised on source hash " + key + ")"}
 				ok := true
 				for _, r := range roots {
 					s, present := c.Signs[r.String()]
@@ -307,6 +339,9 @@ func AnalyzeCached(repoDir string, patterns []string, roots []Root, algo string)
 					res.Signs[r] = s
 					if v := c.Via[r.String()]; v != nil {
 						res.Via[r] = v
+					}
+					if v := c.Targets[r.String()]; v != nil {
+						res.Targets[r] = v
 					}
 				}
 				if ok {
@@ -320,12 +355,15 @@ func AnalyzeCached(repoDir string, patterns []string, roots []Root, algo string)
 		return nil, err
 	}
 	if len(res.Missing) == 0 {
-		c := cacheFile{Signs: map[string]bool{}, Via: map[string][]string{}, RegisterCallers: res.RegisterCallers, Algo: res.Algo, Stats: res.Stats}
+		c := cacheFile{Signs: map[string]bool{}, Via: map[string][]string{}, Targets: map[string][]string{}, RegisterCallers: res.RegisterCallers, Algo: res.Algo, Stats: res.Stats}
 		for r, s := range res.Signs {
 			c.Signs[r.String()] = s
 		}
 		for r, v := range res.Via {
 			c.Via[r.String()] = v
+		}
+		for r, v := range res.Targets {
+			c.Targets[r.String()] = v
 		}
 		if b, err := json.Marshal(c); err == nil {
 			os.MkdirAll(dir, 0o755)
